@@ -57,6 +57,11 @@ CLAIMED.update({
          TB + "rustfft/realfft planner internals and std feature detection are outside the crate: exercised, not proved. Data races are excluded by Rust's type system (no unsafe Send/Sync in src: checked). Axiom-free.",
          "machine-checked proof in Coq (projection of interleavings; regenerated shared-storage summary) + concurrent / migrating / warmed twin runs", "DESIGN.md 7 C18"),
 })
+CLAIMED.update({
+ "C05": ("Coq theorems (ideal arithmetic, constant ratio) for the polynomial resamplers: a stream specification fast_spec(d, X, G) that mentions neither chunk size nor variant; per call, the history buffer of every channel holds exactly the last chunk+16 (FastFixedIn) / fill+16 (FastFixedOut) samples of the input stream before and after (nothing lost, duplicated or stale across a chunk boundary) and the frames written equal the specification at N + last_index + (k+1)/ratio; by induction over any list of calls, output frame j of a fresh resampler equals fast_spec at -4 + (j+1)/ratio; corollaries: any two chunk sizes agree on their common prefix, and FastFixedIn agrees with FastFixedOut. Sinc and FFT types, set_chunk_size schedules: families of differently chunked runs of the real crate over the same position-defined signal, every member bit-exact against the model, streams compared (bit-identical where the position arithmetic is exact, always for FFT; else within 1e-6/1e-5 of the peak).",
+         TB + "Sinc/FFT stream theorems and ratio schedules are not proved; float deviation measured. Axioms: Reals.",
+         "machine-checked proof in Coq (refinement of every call to a chunking-free stream specification, induction over the call list) + families of differently chunked runs compared on the implementation and against the bit-exact model", "DESIGN.md 7 C05"),
+})
 NOT_YET = {}
 ALL = ["C%02d" % i for i in range(1, 19)]
 
